@@ -2,18 +2,20 @@
   MgrTruthCex — the added payload contract `ImportAddsNew` (Pk/Props/C06ReachSpec.lean) cannot be dropped.
 
   Witness: the state reached from the initial state by `addTag tag/x "sport:80"` and `importPcaps ["a.pcap"]`
-  (one tag with `mat = unc = []`, `next = all = 0`, the import job in flight), and the completion
+  (one tag with `mat = unc = []` and identity `gen = 0`, `ngen = 1`, `next = all = 0`, the import job in flight),
+  and the completion
   `importDone 1 1 [(0,[0])] [] [] []`: one file holding the new stream 0, one new id, NOTHING reported as added.
-  Every other contract of the step theorem holds (`Good`, `PayloadOK`, `TruthStep`, `ResultOK`, `JobTextOK`,
-  `MarkRefOK`), but afterwards `next = 1` and tag/x decides stream 0 ("no") although the truth is "yes" and
+  Every other contract of the step theorem holds (`Good`, `PayloadOK`, `EvFeatOK`, `TruthStep`, `ResultOK`,
+  `JobTextOK`), but afterwards `next = 1` and tag/x decides stream 0 ("no") although the truth is "yes" and
   nobody evaluated it.
 -/
 import Pk.Props.C06ReachSpec
 namespace Pk.Props.C06Reach
 open Pk.Mgr Pk.Props.MgrReach Pk.Proofs.MgrTruth Pk.Proofs.MgrTags
 
-def cexTag : Tag := { defn := "sport:80", mainT := [], subT := [], mfeat := 4, sfeat := 0 }
-def cexSt : St := { tags := [("tag/x", cexTag)], queue := ["a.pcap"], pcaps := ["a.pcap"], jImport := some (0, []) }
+def cexTag : Tag := { defn := "sport:80", mainT := [], subT := [], mfeat := 4, sfeat := 0, gen := 0 }
+def cexSt : St :=
+  { tags := [("tag/x", cexTag)], queue := ["a.pcap"], pcaps := ["a.pcap"], jImport := some (0, []), ngen := 1 }
 def cexEv : Ev := .importDone 1 1 [(0, [0])] [] [] []
 def cexT : Truth := fun _ _ => true
 
@@ -22,6 +24,13 @@ theorem cex_sget {n : String} {t : Tag} (h : sget cexSt.tags n = some t) : t = c
   rw [sget_cons] at h'
   split at h'
   · exact (Option.some.inj h').symm
+  · simp at h'
+
+theorem cex_name {n : String} {t : Tag} (h : sget cexSt.tags n = some t) : n = "tag/x" := by
+  have h' : sget [("tag/x", cexTag)] n = some t := h
+  rw [sget_cons] at h'
+  split at h'
+  · next hn => exact hn.symm
   · simp at h'
 
 theorem cex_mem {nt : String × Tag} (h : nt ∈ cexSt.tags) : nt = ("tag/x", cexTag) := by
@@ -69,9 +78,15 @@ theorem cex_reach : Reach cexSt := by
 
 
 theorem cex_good : Good cexSt cexT cexT := by
-  refine ⟨cex_reach, rfl, ?_, ?_⟩
+  refine ⟨cex_reach, rfl, ?_, ?_, ?_, ?_⟩
+  · refine ⟨fun n t h => ?_, fun _ _ _ h => (by cases h), fun n1 t1 n2 t2 h1 h2 _ => ?_⟩
+    · rw [cex_sget h]; exact Nat.lt_succ_self 0
+    · exact (cex_name h1).trans (cex_name h2).symm
+  · refine ⟨fun n t h => ?_, fun _ _ _ h => (by cases h)⟩
+    rw [cex_sget h]
+    exact ⟨fun h => absurd rfl h, fun h => absurd rfl h⟩
   · intro n t _ id hid; exact absurd hid (Nat.not_lt_zero _)
-  · intro jn snap held ot h; cases h
+  · intro jn snap held n ot h; cases h
 
 theorem cex_payload : PayloadOK cexSt cexEv := by
   refine ⟨⟨⟨?_, ?_⟩, ?_⟩, ?_, trivial, ?_, trivial⟩
@@ -115,10 +130,10 @@ theorem cex_not_addsNew : ¬ ImportAddsNew cexSt cexEv := by
 /-- without `ImportAddsNew` the step theorem is false: an import that hands out stream id 0 without reporting it
     in `add` leaves a tag deciding stream 0 although nobody evaluated it -/
 theorem importAddsNew_counterexample :
-    ¬ (∀ (s : St) (e : Ev) (st : Started) (T T' g : Truth), Good s T g → PayloadOK s e → TruthStep s e T T' →
-        ResultOK s e g → JobTextOK s e st T T' → MarkRefOK s e → C06.Inv (step s e st).1 T') := by
+    ¬ (∀ (s : St) (e : Ev) (st : Started) (T T' g : Truth), Good s T g → PayloadOK s e → EvFeatOK e →
+        TruthStep s e T T' → ResultOK s e g → JobTextOK s e st T T' → C06.Inv (step s e st).1 T') := by
   intro h
-  exact cex_not_inv (h cexSt cexEv {} cexT cexT cexT cex_good cex_payload cex_truth trivial
-    (fun _ _ _ hj => by cases hj) trivial)
+  exact cex_not_inv (h cexSt cexEv {} cexT cexT cexT cex_good cex_payload trivial cex_truth trivial
+    (fun _ _ _ hj => by cases hj))
 
 end Pk.Props.C06Reach
